@@ -427,9 +427,14 @@ def rand_forms(isa, rnd, index, n):
             mn = rnd.choice(existing)[0].lower()      # existing mnemonic, arity possibly different
         f = {"id": "f%d" % len(forms), "mnem": mn, "mkey": mn.lower(), "ops": [rand_opcode(isa, rnd) for _ in range(arity)]}
         nm = form_name(f).lower()
-        if "-" in mn or "_" in mn or ":" in mn or nm in names:
+        # two names that denote ONE form (a bare `v` is `vd` by the documented default) are two forms of the file but one
+        # instruction form of the model: what "one entry per form" means for them is not stated, so they are not generated
+        decoded = (mn.lower(), tuple((o["c"], o["sh"] or ("d" if o["c"] == "v" else "")) + tuple(bool(o.get(k)) for k in ("fb", "fo", "fi", "fs", "fr", "fp"))
+                                     for o in f["ops"]))
+        if "-" in mn or "_" in mn or ":" in mn or nm in names or decoded in names:
             continue
         names.add(nm)
+        names.add(decoded)
         forms.append(f)
     return forms
 
